@@ -59,6 +59,33 @@ IntegerFams == {"integer"}
 Slack32 == 20
 SlackFor(J, dtype) == IF dtype = "float32" THEN Slack32 ELSE Slack(J)
 
+\* How the rank is specified and which call path is used.  The documented forms:
+\*   "list" / "tuple" / "npint" (list with numpy integer entries): the rank vector itself;
+\*   "int"   : one integer, "the same rank for all modes / factors" (TT: boundary ranks stay 1);
+\*   "none"  : tucker(rank=None) "preserves the original size" (rank vector = shape);
+\*   "same" / "float": the routine computes a parameter-preserving rank itself.  Its arithmetic (roots,
+\*             rounding) is not part of this contract: exactness is not obliged, but the RETURNED ranks must be
+\*             well formed (boundary conditions, realisable) and the bounds hold with respect to them.
+\* Call paths: the function, the class wrapper (Tucker / TensorTrain / TensorTrainMatrix / TensorRing
+\* .fit_transform), and the class wrapper fitted a second time after a fit on another tensor (an estimator
+\* carries no state from one fit to the next: the second result is judged like a fresh call).
+RankSpecs == {"list", "tuple", "npint", "int", "none", "same", "float"}
+Computed(rs) == rs \in {"same", "float"}
+Vias == {"function", "class", "refit"}
+Fractions == {25, 50, 100}        \* float rank specifications, in percent
+
+UniformRank(c) ==        \* the rank vector an integer specification stands for
+    CASE c.op = "tucker" -> \A k \in 1..Len(c.rank) : c.rank[k] = c.rank[1]
+      [] c.op = "tr" -> \A k \in 1..Len(c.rank) : c.rank[k] = c.rank[1]
+      [] OTHER -> /\ c.rank[1] = 1 /\ c.rank[Len(c.rank)] = 1 /\ Len(c.rank) >= 3
+                  /\ \A k \in 2..(Len(c.rank) - 1) : c.rank[k] = c.rank[2]
+
+ValidRankSpec(c, rs, frac) ==
+    /\ rs \in RankSpecs
+    /\ (rs = "int" => UniformRank(c))
+    /\ (rs = "none" => c.op = "tucker" /\ c.rank = c.shape)
+    /\ (rs = "float" => frac \in Fractions) /\ (rs # "float" => frac = 0)
+
 Algs == {"tucker", "tt", "ttm", "tr"}
 Svds == {"truncated_svd", "symeig_svd", "randomized_svd"}
 Iters == {0, 1, 50}        \* n_iter_max of HOOI (0 = the HOSVD initialisation itself)
@@ -265,7 +292,8 @@ VARIABLE cfg
 NoCfg == [op |-> "none"]
 Init == \/ cfg \in {[op |-> "shapeT", shape |-> s] : s \in ShapeSet}      \* -> matching tensors of that shape
         \/ cfg \in {[op |-> "shapeC", shape |-> s] : s \in ShapeSet}      \* -> rank configurations of that shape
-        \/ cfg = [op |-> "options", svds |-> Svds, iters |-> Iters, dtypes |-> Dtypes]
+        \/ cfg = [op |-> "options", svds |-> Svds, iters |-> Iters, dtypes |-> Dtypes, rankspecs |-> RankSpecs,
+                 vias |-> Vias, fractions |-> Fractions]
 Next == \/ /\ cfg.op = "shapeT"
            /\ cfg' \in {[op |-> "place", shape |-> cfg.shape, idx |-> ix] :
                            ix \in UNION {IdxSets(cfg.shape, p) : p \in 1..MinOf(4, MinDim(cfg.shape))}}
